@@ -1083,3 +1083,34 @@ def fold_list_building(fn: ast.FunctionDef) -> ast.FunctionDef:
         changed = True
         break           # indices moved; one folded list per function is what the repo needs
     return ast.fix_missing_locations(out) if changed else fn
+
+
+# ---------------------------------------------------------------------------
+# The duck-typing idiom for "a Position or a (y, x) pair"
+def duck_pair_versions(fn: ast.FunctionDef):
+    """`try: <read p.y / p.x / p.yx> except AttributeError: <unpack p>` at the top level of a
+    function: returns (fn for Positions, fn for pairs) -- copies with the try replaced by its
+    body / by its handler -- or None when the function has no such statement.  `cast(T, p)`
+    re-bindings of the parameter are dropped (typing.cast returns its argument)."""
+    idx = [i for i, s in enumerate(fn.body) if isinstance(s, ast.Try) and not s.finalbody
+           and not s.orelse and len(s.handlers) == 1 and s.handlers[0].type is not None
+           and 'AttributeError' in ast.unparse(s.handlers[0].type)]
+    if len(idx) != 1:
+        return None
+    i = idx[0]
+
+    def uncast(stmts):
+        out = []
+        for s in stmts:
+            if isinstance(s, ast.Assign) and len(s.targets) == 1 and \
+                    isinstance(s.value, ast.Call) and \
+                    ast.unparse(s.value.func) in ('cast', 'typing.cast') and \
+                    len(s.value.args) == 2 and \
+                    ast.unparse(s.targets[0]) == ast.unparse(s.value.args[1]):
+                continue
+            out.append(s)
+        return out
+    a, b = copy.deepcopy(fn), copy.deepcopy(fn)
+    a.body[i:i + 1] = uncast(a.body[i].body)
+    b.body[i:i + 1] = uncast(b.body[i].handlers[0].body)
+    return ast.fix_missing_locations(a), ast.fix_missing_locations(b)
